@@ -223,6 +223,10 @@ Theorem c13_concurrency_sites_modelled : RM.Gen.C13Sites.concurrency_sites = map
 Proof. reflexivity. Qed.
 Print Assumptions c13_concurrency_sites_modelled.
 
+Theorem c13_shared_state_sites_modelled : RM.Gen.C13Sites.shared_state_sites = map fst modelled_shared_state_sites.
+Proof. reflexivity. Qed.
+Print Assumptions c13_shared_state_sites_modelled.
+
 (* the ASCII constants of the model are the words they stand for, and the byte table is the string table *)
 Theorem c13_constants_spelled :
   N_ID = bytes_of_string "id" /\ N_RELEASE = bytes_of_string "release" /\ N_CODENAME = bytes_of_string "codename" /\
